@@ -136,6 +136,33 @@ def scenarios(sk, select, port):
     c.close()
     yield "connect_refused", obs
 
+    # 11. the accepting side closes its connection first: the listening port has a connection in TIME_WAIT, and a new socket
+    #     can be bound to it only if SO_REUSEADDR was set before bind()
+    a = listener()
+    c = sk.socket(sk.AF_INET, sk.SOCK_STREAM)
+    c.connect(addr)
+    select([a], [], [], 1.0)
+    srv, _ = a.accept()
+    srv.close()
+    if select is real_select.select:
+        select([], [], [], 0.1)
+    c.close()
+    a.close()
+    if select is real_select.select:
+        select([], [], [], 0.1)
+    res = []
+    for reuse_first in (False, True):
+        b = sk.socket(sk.AF_INET, sk.SOCK_STREAM)
+        try:
+            if reuse_first:
+                b.setsockopt(sk.SOL_SOCKET, sk.SO_REUSEADDR, 1)
+            b.bind(addr)
+            res.append("bind ok")
+        except OSError as e:
+            res.append(err(e))
+        b.close()
+    yield "bind_with_time_wait_connection", tuple(res)
+
 
 def short_write_real(port):
     """Only on the real kernel: a non-blocking send of 16 MiB to a peer that does not read accepts a part, then would block."""
